@@ -8,6 +8,7 @@ import (
 	"image/color"
 	"image/png"
 	"io"
+	"sync"
 
 	"git.sr.ht/~rockorager/vaxis/log"
 	"git.sr.ht/~rockorager/vaxis/octreequant"
@@ -67,7 +68,10 @@ type KittyImage struct {
 	h        int
 	uploaded int32
 	encoding int32
-	buf      *bytes.Buffer
+	// mu guards buf and uploaded: the encoder goroutine started by Resize
+	// fills buf while a Render may be writing it out
+	mu  sync.Mutex
+	buf *bytes.Buffer
 }
 
 func (vx *Vaxis) NewKittyGraphic(img image.Image) *KittyImage {
@@ -92,11 +96,13 @@ func (k *KittyImage) Draw(win Window) {
 	// the low 16 are the height
 	pid := uint(col)<<16 | uint(row)
 	writeFunc := func(w io.Writer) {
+		k.mu.Lock()
 		if !atomicLoad(&k.uploaded) {
 			w.Write(k.buf.Bytes())
 			atomicStore(&k.uploaded, true)
 			k.buf.Reset()
 		}
+		k.mu.Unlock()
 		fmt.Fprintf(w, "\x1B_Ga=p,i=%d,p=%d,C=1\x1B\\", k.id, pid)
 	}
 	deleteFunc := func(w io.Writer) {
@@ -144,6 +150,7 @@ func (k *KittyImage) Resize(w int, h int) {
 	}
 
 	atomicStore(&k.encoding, true)
+	id := k.id
 	go func() {
 		defer atomicStore(&k.encoding, false)
 		// Encode it to base64
@@ -156,7 +163,7 @@ func (k *KittyImage) Resize(w int, h int) {
 		}
 		wc.Close()
 		b := make([]byte, 4096)
-		atomicStore(&k.uploaded, false)
+		out := bytes.NewBuffer(nil)
 		for buf.Len() > 0 {
 			n, err := buf.Read(b)
 			if err == io.EOF {
@@ -166,15 +173,25 @@ func (k *KittyImage) Resize(w int, h int) {
 			if buf.Len() == 0 {
 				m = 0
 			}
-			fmt.Fprintf(k.buf, "\x1B_Gf=100,i=%d,m=%d;%s\x1B\\", k.id, m, string(b[:n]))
+			fmt.Fprintf(out, "\x1B_Gf=100,i=%d,m=%d;%s\x1B\\", id, m, string(b[:n]))
 		}
+		k.mu.Lock()
+		k.buf = out
+		atomicStore(&k.uploaded, false)
+		k.mu.Unlock()
+		// We are done before we say so: the application draws us when
+		// it receives the Redraw
+		atomicStore(&k.encoding, false)
 		k.vx.PostEventBlocking(Redraw{})
 	}()
 }
 
 type Sixel struct {
-	vx       *Vaxis
-	img      image.Image
+	vx  *Vaxis
+	img image.Image
+	// mu guards buf, w and h: the encoder goroutine started by Resize
+	// replaces them while a Draw or Render may be reading them
+	mu       sync.Mutex
 	buf      *bytes.Buffer
 	id       uint64
 	w        int
@@ -185,18 +202,21 @@ type Sixel struct {
 // Draw draws the [Image] to the [Window]. The image will not be drawn
 // if it is larger than the window
 func (s *Sixel) Draw(win Window) {
-	if s.buf.Len() == 0 {
-		return
-	}
 	if atomicLoad(&s.encoding) {
 		return
 	}
-	w, h := win.Size()
-	if s.w > w || s.h > h {
+	s.mu.Lock()
+	sw, sh, n := s.w, s.h, s.buf.Len()
+	s.mu.Unlock()
+	if n == 0 {
 		return
 	}
-	for y := 0; y < s.h; y += 1 {
-		for x := 0; x < s.w; x += 1 {
+	w, h := win.Size()
+	if sw > w || sh > h {
+		return
+	}
+	for y := 0; y < sh; y += 1 {
+		for x := 0; x < sw; x += 1 {
 			win.SetCell(x, y, Cell{
 				sixel: true,
 			})
@@ -204,14 +224,16 @@ func (s *Sixel) Draw(win Window) {
 	}
 	writeFunc := func(w io.Writer) {
 		// Also need to set sixel value in here for Refresh cycles
-		for y := 0; y < s.h; y += 1 {
-			for x := 0; x < s.w; x += 1 {
+		for y := 0; y < sh; y += 1 {
+			for x := 0; x < sw; x += 1 {
 				win.SetCell(x, y, Cell{
 					sixel: true,
 				})
 			}
 		}
+		s.mu.Lock()
 		w.Write(s.buf.Bytes())
+		s.mu.Unlock()
 	}
 	deleteFunc := func(_ io.Writer) {
 		// no-op. we expect users to Clear the screen or just print
@@ -225,15 +247,17 @@ func (s *Sixel) Draw(win Window) {
 		writeTo:  writeFunc,
 		deleteFn: deleteFunc,
 		id:       s.id,
-		w:        s.w,
-		h:        s.h,
+		w:        sw,
+		h:        sh,
 	}
 	s.vx.graphicsNext = append(s.vx.graphicsNext, placement)
 }
 
 // Destroy removes an image from memory. Call when done with this image
 func (s *Sixel) Destroy() {
+	s.mu.Lock()
 	s.buf.Reset()
+	s.mu.Unlock()
 }
 
 // Resizes the image to fit within the wxh area. The image will not be
@@ -248,16 +272,16 @@ func (s *Sixel) Resize(w int, h int) {
 		cellPixH := s.vx.winSize.YPixel / s.vx.winSize.Rows
 		img := resizeImage(s.img, w, h, cellPixW, cellPixH)
 		max := img.Bounds().Max
-		s.w = max.X / cellPixW
+		cw := max.X / cellPixW
 		if max.X%cellPixW != 0 {
-			s.w += 1
+			cw += 1
 		}
-		s.h = max.Y / cellPixH
+		ch := max.Y / cellPixH
 		if max.Y%cellPixH != 0 {
-			s.h += 1
+			ch += 1
 		}
 		// Re-encode the image
-		s.buf.Reset()
+		buf := bytes.NewBuffer(nil)
 		var paletted image.Image
 		if p, ok := img.(*image.Paletted); ok && len(p.Palette) < 255 {
 			// fast-path for paletted images: pass through to sixel
@@ -265,11 +289,22 @@ func (s *Sixel) Resize(w int, h int) {
 		} else {
 			paletted = octreequant.Paletted(img, 254)
 		}
-		err := sixel.NewEncoder(s.buf).Encode(paletted)
+		err := sixel.NewEncoder(buf).Encode(paletted)
+		s.mu.Lock()
+		s.w, s.h = cw, ch
+		if err != nil {
+			s.buf = bytes.NewBuffer(nil)
+		} else {
+			s.buf = buf
+		}
+		s.mu.Unlock()
 		if err != nil {
 			log.Error("couldn't encode sixel: %v", err)
 			return
 		}
+		// We are done before we say so: the application draws us when
+		// it receives the Redraw
+		atomicStore(&s.encoding, false)
 		s.vx.PostEventBlocking(Redraw{})
 	}()
 }
@@ -279,6 +314,8 @@ func (s *Sixel) CellSize() (w int, h int) {
 	if atomicLoad(&s.encoding) {
 		return
 	}
+	s.mu.Lock()
+	defer s.mu.Unlock()
 	return s.w, s.h
 }
 
